@@ -372,3 +372,10 @@ def _validate_heat_pump_targeting_required(
         or 
         (zone_config.HP_LOAD_FRACTION < tol)
     ) else True
+
+
+# --- verification hook (add-only; inert unless OPENPINCH_VERIF=1) ---
+from .. import _verif as _verif_hooks
+if _verif_hooks.ON:
+    _save_graph_data = _verif_hooks.wrap_save_graph("DI", _save_graph_data)
+    compute_direct_integration_targets = _verif_hooks.wrap_zone("DI", compute_direct_integration_targets)
